@@ -207,6 +207,9 @@ static const struct inv_s invs[] = {
 	{"yd-f-ywd", {"-f", "ywd", NULL}, M_ARGS | M_STDIN, A_YD, K_CAL},
 	{"bizda", {"-f", "%F", NULL}, M_ARGS | M_STDIN, A_BIZDA, K_CAL},
 	{"-i-dmy-i-mdy", {"-i", "%d/%m/%Y", "-i", "%m/%d/%Y", NULL}, M_ARGS | M_STDIN, A_DMY_MDY, K_MFMT},
+	{"-E-i-dmy-i-mdy", {"-E", "-i", "%d/%m/%Y", "-i", "%m/%d/%Y", NULL}, M_STDIN, A_DMY_MDY, K_MFMT},
+	{"-E-i-ymd-i-ydm", {"-E", "-i", "%Y%m%d", "-i", "%Y%d%m", NULL}, M_STDIN, A_YMD_YDM, K_MFMT},
+	{"-E-i-hm-i-ms", {"-E", "-i", "%H:%M", "-i", "%M:%S", NULL}, M_STDIN, A_HM_MS, K_MFMT},
 	{"-i-mdy-i-dmy-S", {"-i", "%m/%d/%Y", "-i", "%d/%m/%Y", "-S", NULL}, M_STDIN, A_DMY_MDY, K_MFMT},
 	{"-i-ymd-i-ydm", {"-i", "%Y%m%d", "-i", "%Y%d%m", NULL}, M_ARGS | M_STDIN, A_YMD_YDM, K_MFMT},
 	{"-i-hm-i-ms", {"-i", "%H:%M", "-i", "%M:%S", NULL}, M_ARGS | M_STDIN, A_HM_MS, K_MFMT},
@@ -229,6 +232,8 @@ static const struct inv_s invs[] = {
 	{"bizda+1b-1b", {"--", "+1b", "-1b", NULL}, M_STDIN, A_BIZDA, K_CAL},
 	{"bizda+1mo", {"+1mo", NULL}, M_STDIN, A_BIZDA, K_CAL},
 	{"-i-dmy-i-mdy+1d", {"-i", "%d/%m/%Y", "-i", "%m/%d/%Y", "+1d", NULL}, M_STDIN, A_DMY_MDY, K_MFMT},
+	{"-E-i-dmy-i-mdy+1d", {"-E", "-i", "%d/%m/%Y", "-i", "%m/%d/%Y", "+1d", NULL}, M_STDIN, A_DMY_MDY, K_MFMT},
+	{"-E-i-ymd-i-ydm+1mo", {"-E", "-i", "%Y%m%d", "-i", "%Y%d%m", "+1mo", NULL}, M_STDIN, A_YMD_YDM, K_MFMT},
 	{"-i-ymd-i-ydm+1mo", {"-i", "%Y%m%d", "-i", "%Y%d%m", "+1mo", NULL}, M_STDIN, A_YMD_YDM, K_MFMT},
 	{"-i-hm-i-ms+1h", {"-i", "%H:%M", "-i", "%M:%S", "+1h", NULL}, M_STDIN, A_HM_MS, K_MFMT},
 	{"-i-ymd8+1d", {"-i", "%Y%m%d", "+1d", NULL}, M_STDIN, A_YMD8},
@@ -254,6 +259,8 @@ static const struct inv_s invs[] = {
 	{"yd-Sat", {"Sat", NULL}, M_STDIN, A_YD, K_CAL},
 	{"bizda-+1mo", {"+1mo", NULL}, M_STDIN, A_BIZDA, K_CAL},
 	{"-i-dmy-i-mdy-Sat", {"-i", "%d/%m/%Y", "-i", "%m/%d/%Y", "Sat", NULL}, M_STDIN, A_DMY_MDY, K_MFMT},
+	{"-E-i-dmy-i-mdy-Mon", {"-E", "-i", "%d/%m/%Y", "-i", "%m/%d/%Y", "Mon", NULL}, M_STDIN, A_DMY_MDY, K_MFMT},
+	{"-E-i-ymd-i-ydm-Mon", {"-E", "-i", "%Y%m%d", "-i", "%Y%d%m", "Mon", NULL}, M_STDIN, A_YMD_YDM, K_MFMT},
 	{"-i-ymd-i-ydm-+1mo", {"-i", "%Y%m%d", "-i", "%Y%d%m", "+1mo", NULL}, M_STDIN, A_YMD_YDM, K_MFMT},
 	{"-i-ymd8-Sat", {"-i", "%Y%m%d", "Sat", NULL}, M_STDIN, A_YMD8},
 	{"-i-ymd8-S-+1mo", {"-i", "%Y%m%d", "-S", "+1mo", NULL}, M_STDIN, A_YMD8},
